@@ -36,6 +36,17 @@ func init() {
 		return scs
 	}
 	// three readers of different ages closing in every order, two small bodies (reader bookkeeping is what matters here)
+	// failed commits (every single I/O failure of every commit) with readers held across: the physical rollback must not
+	// make a page reusable that an open reader's version references (judged by the allocatable-vs-visible check and the
+	// write monitor)
+	hx.Registry["c10-fault"] = func(tier string) []*hx.Scope {
+		scs := mkC08("c10-fault", 2, 1<<20)(tier)
+		for _, s := range scs {
+			s.Boundary = nil
+			s.MaxOps = 6
+		}
+		return scs
+	}
 	hx.Registry["c10-readers"] = func(tier string) []*hx.Scope {
 		n, maxTx := 10, 3
 		if tier == "thorough" {
@@ -88,11 +99,11 @@ func C06(tier string) int {
 // C10: reclamation of freed pages.
 func C10(tier string) int {
 	return RunHX(HXCheck{
-		Prop: "C10", Level: "model_checking", Scopes: []string{"c10-life", "c10-readers"},
+		Prop: "C10", Level: "model_checking", Scopes: []string{"c10-life", "c10-readers", "c10-fault"},
 		Rule:        "breadth-first enumeration of all programs within the bound (overwrite-heavy write transactions, every pattern of up to 2 readers opening and closing between and during them, rollbacks, reopen; scope c10-readers: up to 3 readers of different ages opening and closing in every order between the transactions); oracle at every writer begin: no allocatable page belongs to a version an open reader or the newest state needs, and with no reader open nothing is left pending; after every commit with no reader open: pending pages are a subset of pages(previous version) minus pages(new version) and Stats agrees with the allocator",
 		Assumptions: []string{"page sets from the independent decoder", "the unbounded-growth clause is decided only up to the explored horizon (DESIGN.md 7): steady-state histories of 12 identical overwrite transactions must stop moving the high-water mark"},
 		Extra:       steadyState,
-		Quick:       100 * time.Second, Thorough: 10 * time.Minute,
+		Quick:       120 * time.Second, Thorough: 10 * time.Minute,
 	}, tier)
 }
 
